@@ -202,6 +202,32 @@ pub fn exec(w: &mut World, op: &Value) -> bool {
                 }
             }) && ok
         }
+        "wcopy" => {
+            // copy the weak pointer h -> t into p without upgrading it
+            let (h, t, p, path) = (s(op, "h").to_string(), s(op, "t").to_string(), s(op, "p").to_string(), s(op, "path").to_string());
+            let mut ok = true;
+            let okr = &mut ok;
+            w.mutate("wcopy", move |st, mc, root| {
+                let found = st.survey(mc, root, None);
+                let Some(ts) = st.serial_of(&t) else { *okr = false; return };
+                let Some((ps, pp)) = st.serial_of(&p).and_then(|x| found.get(&x).map(|q| (x, *q))) else {
+                    *okr = false;
+                    st.diverged = true;
+                    return;
+                };
+                let wp = if h == "root" {
+                    st.root_w.iter().position(|x| *x == ts).and_then(|i| root.weak.get(i).copied())
+                } else {
+                    st.serial_of(&h).and_then(|hs| {
+                        let i = st.sh_weak.get(&hs)?.iter().position(|x| *x == ts)?;
+                        let hp = found.get(&hs)?;
+                        St::kids_of(*hp).1.get(i).copied()
+                    })
+                };
+                let Some(wp) = wp else { *okr = false; st.diverged = true; return };
+                *okr = st.wstore_w(mc, ps, pp, ts, wp, &path);
+            }) && ok
+        }
         "link_many" => {
             let (p, c1, c2) = (s(op, "p").to_string(), s(op, "c1").to_string(), s(op, "c2").to_string());
             let mut ok = true;
